@@ -474,8 +474,10 @@ static void register_extern(CG *cg, const char *name, const char *module_name,
 
     /* Add to codegen extern table */
     ExternFn *ef = &cg->externs[cg->extern_count];
-    ef->name = (char *)name;
-    ef->module_name = (char *)module_name;
+    /* Keep the module's own copies of the names: callers may pass a local buffer
+     * (the character classification builtins build "vm_<name>" on the stack) */
+    ef->name = cg->module->strings[fn_str];
+    ef->module_name = cg->module->strings[mod_str];
     ef->import_idx = imp_idx;
     ef->param_count = param_count;
     ef->return_tag = return_tag;
